@@ -27,6 +27,7 @@ RULE = (
     "set define gate GP with three different signatures; exactly the call fitting the winner (injected > later "
     "import > earlier import) is accepted.  Non-trivial = a lower-bound (negative) fault, or one that becomes known "
     "only after override / substitution, or a precedence case. distinct = (text, overrides)."
+    " builder-body: a call of a native gate with a surplus qubit / surplus number / missing argument / wrong kind, or of an unknown gate, inside a CircuitBuilder loop, nested loop or macro body evaluated on its own (and at top level), in a circuit with or without a let: refused by build() or at the latest by run_jaqal_circuit; the fitting twin runs.  Kind faults include a subcircuit count that names a register, alias or qubit (literally and through a macro argument)."
 )
 ASSUMPTIONS = ["an empty alias (stop == start) is not treated as a fault; 'reversed' slices are not injected (the property only names slices reaching outside the source)"]
 
